@@ -457,10 +457,37 @@ class Names:
     def pair_key(self):
         return self.by_sig("registry key function", ["&[%s; 2]" % self.AssetInfoRaw], "std::vec::Vec<u8>")
 
+    def role_items(self):
+        """Root strings of the storage items the properties speak about (a new item nobody of these is, e.g. a statistics
+        counter, carries no property-relevant state)."""
+        out = set()
+        for a in ("PAIRS", "ALLOW", "FACTORY_CONFIG", "TMP", "PAIR_INFO", "COMMISSION", "PAIR_CONFIG", "ROUTER_CONFIG"):
+            try:
+                out.add(getattr(self, a))
+            except AnchorMissing:
+                pass
+        return out
+
     # router helpers
     @property
     def target_asset(self):
-        return self.by_sig("ask asset of a hop", ["&" + self.SwapOperation], self.AssetInfo)
+        def go():
+            what = "ask asset of a hop  fn(&%s) -> %s" % (self.SwapOperation, self.AssetInfo)
+            hs = [f for f, ps, r in self._sig_index() if ps == ["&" + self.SwapOperation] and r == self.AssetInfo]
+            if len(hs) > 1:
+                # several accessors with this signature (offer / ask): the role is the one returning the ask field
+                from . import common as _c
+                R = _c.Roots(self.P)
+                keep = []
+                for f in hs:
+                    rs = set()
+                    for (b, i, cls, v) in _c.exit_sites(self.P, f):
+                        rs |= set(R.roots(v))
+                    if rs and all(r_.endswith(".ask_asset_info") for r_ in rs):
+                        keep.append(f)
+                hs = keep
+            return self._one(what, hs)
+        return self._once(("target_asset",), go)
 
     # pricing
     def pricing_candidates(self):
